@@ -61,8 +61,15 @@ impl SavedSim {
 
         movement.clear();
         movement.push(SimpleState::from_train_state(&self.train_sim.state));
+        // A train whose whole path is already known (destination reached) must be run to its stop even
+        // if it has not started to move yet: on a trip shorter than the 5 mile look-ahead it is still
+        // standing at its origin here, and would otherwise never record an event beyond the origin link.
+        let mut must_start = self.train_sim.is_finished()
+            && self.train_sim.state.speed <= si::Velocity::ZERO
+            && self.train_sim.state.offset < self.train_sim.offset_end();
         // TODO: Tighten up this bound using braking points.
-        while condition(&self.train_sim) {
+        while condition(&self.train_sim) || must_start {
+            must_start = false;
             self.train_sim.step()?;
             movement.push(SimpleState::from_train_state(&self.train_sim.state));
         }
